@@ -8,37 +8,11 @@ import Drx.Link
 import DrxProofs.SpecLex
 import DrxProofs.LscrConst
 import DrxProofs.LinkText
+import DrxProofs.LinkNum
 namespace Drx.Link
 open Drx Drx.Lscr Drx.Spec
 set_option linter.unusedSimpArgs false
 set_option linter.unusedVariables false
-
-/-! ### decimal digits: the model's `str(n)` is the reference printer's digit string -/
-
-theorem digitChar_eq (n : Nat) : Lscr.digitChar n = Spec.digitChar (n % 10) := rfl
-
-theorem natDigits_eq : ∀ (fuel n : Nat) (acc : Str), n < 10 ^ (fuel + 1) → Lscr.natDigits (fuel + 1) n acc = Spec.natDigits n ++ acc
-  | 0, n, acc, h => by
-    have h10 : n < 10 := by simpa using h
-    rw [Spec.natDigits]
-    simp only [Lscr.natDigits, h10, if_true, dite_true, digitChar_eq, Nat.mod_eq_of_lt h10, List.singleton_append]
-  | f + 1, n, acc, h => by
-    rw [Spec.natDigits]
-    by_cases h10 : n < 10
-    · simp only [Lscr.natDigits, h10, if_true, dite_true, digitChar_eq, Nat.mod_eq_of_lt h10, List.singleton_append]
-    · have hlt : n / 10 < 10 ^ (f + 1) := by
-        rw [Nat.pow_succ] at h
-        omega
-      have ih := natDigits_eq f (n / 10) (Lscr.digitChar n :: acc) hlt
-      rw [Lscr.natDigits]
-      simp only [h10, if_false, dite_false]
-      rw [ih, digitChar_eq]
-      simp
-
-theorem natStr_eq (n : Nat) : Lscr.natStr n = Spec.natDigits n := by
-  unfold Lscr.natStr
-  rw [natDigits_eq n n [] (lt_ten_pow_succ n)]
-  simp
 
 /-! ### items -/
 
@@ -74,6 +48,7 @@ def okNext : Item → List Char → Bool
   | .tk (.p .lt), c :: _ => c != '=' && c != '>'
   | .tk (.p .gt), c :: _ => c != '='
   | .tk (.p _), _ => true
+  | .tk (.str s), _ => safeStr s
   | _, _ => false
 
 def Chain : List Item → List Char → Bool
@@ -152,6 +127,14 @@ theorem lex_item_num (f : Nat) (n : Nat) (c : Char) (r : List Char) (acc : List 
       exact absurd heq.1 hd
     · rfl
 
+theorem lex_item_str (f : Nat) (s : Spec.Name) (next : List Char) (acc : List Tok) (h : safeStr s = true) :
+    lexAux (f + 1) (('"' :: s ++ ['"']) ++ next) acc = lexAux f next (.str s :: acc) := by
+  have hsp := spanC_append (fun x => x != '"' && x != '\n' && x != '\r') s '"' next h (by decide)
+  have e : ('"' :: s ++ ['"']) ++ next = '"' :: (s ++ '"' :: next) := by simp
+  rw [e, lexAux.eq_def]
+  simp only [hsp]
+  simp
+
 theorem lex_item_punct (f : Nat) (x : P) (next : List Char) (acc : List Tok) (h : okNext (.tk (.p x)) next = true) :
     lexAux (f + 1) (x.text.toList ++ next) acc = lexAux f next (.p x :: acc) := by
   cases x <;>
@@ -183,7 +166,9 @@ theorem lex_item (f : Nat) (it : Item) (next : List Char) (acc : List Tok) (h : 
         simp only [okNext, Bool.and_eq_true, Bool.not_eq_true', bne_iff_ne, ne_eq] at h
         simpa [Item.text, itoks] using lex_item_num f n c r acc h.1 h.2
     | p x => simpa [Item.text, itoks] using lex_item_punct f x next acc h
-    | str s => simp [okNext] at h
+    | str s =>
+      have hs : safeStr s = true := by cases next <;> simpa [okNext] using h
+      simpa [Item.text, itoks] using lex_item_str f s next acc hs
     | flt a b => simp [okNext] at h
 
 /-- **rendering then lexing** an item list whose items are properly delimited -/
